@@ -108,6 +108,7 @@ def run(case):
     hs = [h for s in W._slabs(world, inds) for h in s['halos']]
     with C.scratch() as root:
         gd, written = W.write_world(world, root, knobs)
+        C.prelude(world, knobs, root, out['faults'])
         tabs = {}
         for convert in (True, False):
             try:
